@@ -1,12 +1,20 @@
 #!/usr/bin/env python3
-"""regress_seeded.py: for every seeded change that applies to /repo HEAD, run the checks its meta names (caught_by) and
-report the seeded changes no check catches any more; benign ones (B*) must raise no alarm from the checks listed in
-their meta 'observed' (all).  Restores /repo after each run.  Evidence files are rewritten: rerun runall afterwards."""
+"""regress_seeded.py [-j K] [prefix...]: for every seeded change that applies to /repo HEAD, run the checks its meta names
+(caught_by) and report the seeded changes no check catches any more.  Each change is evaluated in a scratch worktree
+(tools/wt_run.sh): /repo and /verif/evidence are not touched, K changes run side by side."""
 import glob, json, os, re, subprocess, sys
 
 os.chdir("/verif")
-only = sys.argv[1:]
+from concurrent.futures import ThreadPoolExecutor
+
+args = sys.argv[1:]
+J = 2
+if "-j" in args:
+    J = int(args[args.index("-j") + 1])
+    del args[args.index("-j") : args.index("-j") + 2]
+only = args
 rows = []
+todo = []
 for d in sorted(glob.glob("seeded/*")):
     name = os.path.basename(d)
     if only and not any(name.startswith(o) for o in only):
@@ -25,13 +33,20 @@ for d in sorted(glob.glob("seeded/*")):
     checks = sorted(set(re.findall(r"C\d\d", text)))
     if not checks:
         checks = sorted(set(re.findall(r"C\d\d", str(meta.get("breaks", "")))))
-    got = {}
-    for c in checks:
-        out = subprocess.run(["tools/patch_run.sh", p, "./run.sh", c, "quick"], capture_output=True, text=True).stdout
-        got[c] = out.count("\nVIOLATION property=") + (1 if out.startswith("VIOLATION property=") else 0)
+    todo.append((name, p, checks))
+
+
+def one(job):
+    name, p, checks = job
+    out = subprocess.run(["tools/wt_run.sh", p, "quick"] + checks, capture_output=True, text=True).stdout
+    got = {c: int(n) for c, n in re.findall(r"== (C\d\d) exit=\d+ :: (\d+) violation line", out)}
     status = "caught" if any(v > 0 for v in got.values()) else "MISSED"
-    rows.append((name, status, json.dumps(got)))
     print(name, status, got, flush=True)
+    return (name, status, json.dumps(got))
+
+
+with ThreadPoolExecutor(J) as ex:
+    rows += list(ex.map(one, todo))
 print("---- summary")
 for r in rows:
     if r[1] != "caught":
